@@ -212,6 +212,13 @@ func init() {
 	streams["glue"] = func(seed int64, idx int) *scenario { return runGlueScenario(seed*1000003 + int64(idx)) }
 	streams["nego"] = func(seed int64, idx int) *scenario { return runNegoScenario(seed*1000003+int64(idx), idx) }
 	streams["matrix"] = func(seed int64, idx int) *scenario { return runMatrixScenario(seed, idx+int(seed%7)*61) }
+	streams["sched"] = func(seed int64, idx int) *scenario { return runSchedScenario(seed*1000003 + int64(idx)) }
+	streams["prep"] = func(seed int64, idx int) *scenario {
+		return runWriterScenario(seed*1000003+int64(idx), wOpts{prepared: true, preparedHeavy: true, compress: true, multi: true, closes: idx%6 == 0, invalid: idx%3 == 0, bigPayload: idx%8 == 0}, -1, "")
+	}
+	streams["wf8"] = func(seed int64, idx int) *scenario {
+		return runWriterScenario(seed*1000003+int64(idx), wOpts{prepared: true, preparedHeavy: idx%2 == 0, compress: true, allowF8: true}, -1, "")
+	}
 	streams["pair"] = func(seed int64, idx int) *scenario { return runPairScenario(seed*1000003 + int64(idx)) }
 	streams["join"] = func(seed int64, idx int) *scenario { return runJoinScenario(seed*1000003 + int64(idx)) }
 	streams["srv"] = func(seed int64, idx int) *scenario { return runServerScenario(seed*1000003+int64(idx), false) }
